@@ -50,6 +50,13 @@ META = {'C01': {'text': 'Model-based stateful property testing: random histories
          'design_ref': 'DESIGN.md §6 C07',
          'note': 'Trusts the reference model; snapshots are taken and restored through in-memory buffers (bytes.Buffer).',
          'technique': 'model-based stateful property testing (rapid) with round-trip + reference-model oracle'},
+ 'C08': {'text': 'Controlled-schedule exploration of Snapshot racing with committing writers at every yield point of both protocols, with a '
+                 'per-block prefix-consistency oracle computed from the recorded apply order and logical clocks; random schedules by rapid plus '
+                 'bounded-exhaustive enumeration of small fixed configurations.',
+         'design_ref': 'DESIGN.md §6 C08, §2.4',
+         'note': "Trusts the recording logger's order as apply order and the scheduler's logical clock for 'acknowledged before' / 'applied before'; "
+                 'windows inside latch-protected regions are not interleaved.',
+         'technique': 'controlled-schedule exploration (cooperative scheduler, rapid + bounded-exhaustive DFS) with per-block prefix oracle'},
  'C09': {'text': 'Controlled-schedule exploration (random schedules by rapid + exhaustive enumeration of fixed configurations) with a '
                  'fold-in-apply-order oracle read from the recorded stream, plus free-parallel runs for commutative merges of every numeric kind. '
                  'Exploration; exhaustive only for the listed small configurations.',
